@@ -19,8 +19,9 @@ From Texel Require Import Persist.PTable Persist.Persist Persist.PTableProofs Pe
 Import ListNotations.
 Local Open Scope N_scope.
 
-(** For every variant of the code in which clear() resets the generation and stale eval-cache
-    entries are either dropped by Clear Hash or unreachable (contempt in the key): after ANY
+(** For every variant of the code in which clear() resets the generation, stale eval-cache
+    entries are either dropped by Clear Hash or unreachable (contempt in the key), and every go
+    assigns all limit members: after ANY
     history whose option changes were reverted, Clear Hash gives exactly the view of a fresh
     process with the same options, for every depth/node-limited probe command at full strength. *)
 Theorem C14_clear_equiv_fresh : forall V oracle os h c,
@@ -33,7 +34,8 @@ Proof. exact clear_equiv_fresh. Qed.
 Print Assumptions C14_clear_equiv_fresh.
 
 (** For EVERY variant (in particular the current code) all other components of the view agree;
-    only "the next search runs with generation 0" and the stale eval-cache entries can differ. *)
+    only "the next search runs with generation 0", the stale eval-cache entries and (if a go does
+    not assign all of them) the limit members can differ. *)
 Theorem C14_clear_diff_characterised : forall V oracle os h c,
   st_opts (run V oracle h (init V os)) = st_opts (init V os) ->
   weak (st_opts (init V os)) = false ->
@@ -63,6 +65,23 @@ Theorem C14_clear_equiv_fresh_refuted_evalcache : exists oracle os h c,
   v_evalStale (relevant gen_fixed_only c (init gen_fixed_only os)) = [].
 Proof. exists one_eval_write, [], f3_history, probe_cmd. exact f3_witness. Qed.
 Print Assumptions C14_clear_equiv_fresh_refuted_evalcache.
+
+(** Every go command assigns all limit members of EngineControl (minTimeLimit, maxTimeLimit,
+    earlyStopPercentage, maxDepth, maxNodes, ponder, infinite, searchMoves): what an earlier go left
+    behind is never read.  True of the code as it is ([go_resets_limits] decided by the check). *)
+Theorem C14_go_overwrites_limits : forall o1 o2 g, compute_limits true o1 g = compute_limits true o2 g.
+Proof. exact go_overwrites_limits. Qed.
+Print Assumptions C14_go_overwrites_limits.
+
+(** A variant whose computeTimeLimit does not assign maxNodes on every go is refuted by one prior
+    `go nodes 100`: a later `go depth 9` still carries the node limit, Clear Hash or not. *)
+Theorem C14_clear_equiv_fresh_refuted_limits : exists oracle os h c,
+  st_opts (run limits_not_reset oracle h (init limits_not_reset os)) = st_opts (init limits_not_reset os) /\
+  weak (st_opts (init limits_not_reset os)) = false /\ sc_limited c = true /\
+  l_maxNodes (v_limits (relevant limits_not_reset c (run limits_not_reset oracle (h ++ [ClearHash]) (init limits_not_reset os)))) = 100%Z /\
+  l_maxNodes (v_limits (relevant limits_not_reset c (init limits_not_reset os))) = (-1)%Z.
+Proof. exists no_writes, [], [Search prior_cmd 0 true 0%Z], probe_cmd. exact limits_witness. Qed.
+Print Assumptions C14_clear_equiv_fresh_refuted_limits.
 
 (** The abstraction of the generation counter in [relevant] is exact.  On a cleared table any two
     non-zero generations give the same probe results for every sequence of inserts/probes ... *)
